@@ -21,11 +21,23 @@ import re
 RUNNING = 22
 
 
-def explicit_project(model):
+def explicit_project(model, defer_sub: bool = False):
+    """`defer_sub`: the sub-plan, after defining its steps, amends an output of a step of the main plan.
+    That input is usually not built yet, so the sub-plan is deferred while its own steps already run; when
+    it runs again its `reset_for_rerun` detaches them while they are RUNNING and its new run recycles them
+    (the pattern of the repository's example `detach_running_step`)."""
     import projgen
     from simdirector import A
 
     project = projgen.render(model)
+    if defer_sub and model.has_sub:
+        main_outs = [s.out[0] for s in model.steps if s.plan == projgen.MAIN and s.out]
+        sub_inputs = {p for s in model.steps if s.plan == projgen.SUB for p in s.all_inputs()}
+        main_outs = [o for o in main_outs if o not in sub_inputs] or main_outs
+        if main_outs:
+            project.scripts[projgen.SUB_CMD] = list(project.scripts[projgen.SUB_CMD]) + [
+                A.amend(inp=[main_outs[0]]), A.read(main_outs[0])]
+            project.files[projgen.SUB_FILE] = __import__("simdirector").plan_file(project.scripts[projgen.SUB_CMD])
     for step in model.steps:
         actions = [A.read(p) for p in step.inp] + [A.getenv(e) for e in step.env]
         if step.amend_inp:
